@@ -7,13 +7,27 @@ CONFIG = {
                 "VProofs/AuthRulesMember.lean", "VProofs/AuthRulesNoPanic.lean", "VModel/Auth.lean", "VModel/Event.lean",
                 "VModel/GoJson.lean"],
     "theorems": [
-        "V.C07.allowed_eq_rules", "V.C07.allowed_eq_spec_partial", "V.C07.ctx_allowed_eq_rules",
-        "V.C07.create_eq_spec", "V.C07.aliases_eq_spec", "V.C07.member_eq_spec", "V.C07.member_join_eq_spec",
-        "V.C07.member_invite_eq_spec", "V.C07.member_leave_eq_spec", "V.C07.member_ban_eq_spec", "V.C07.member_knock_eq_spec",
-        "V.C07.third_party_eq_spec", "V.C07.power_levels_eq_spec", "V.C07.redaction_eq_spec", "V.C07.default_eq_spec",
-        "V.C07.different_rooms_refused", "V.C07.no_panic_allowed", "V.C07.spec_delta_documented",
-        "V.C07.witnesses_model_eq_library", "V.C07.undocumented_delta", "V.C07.undocumented_witnesses_as_implemented",
-        "V.C07.version_switches_eq_spec", "V.C07.spec_table_stable", "V.C07.rulesDecision_lib",
+        "V.C07.allowed_eq_spec",
+        "V.C07.ctx_allowed_eq_spec",
+        "V.C07.create_eq_spec",
+        "V.C07.aliases_eq_spec",
+        "V.C07.member_eq_spec",
+        "V.C07.member_join_eq_spec",
+        "V.C07.member_invite_eq_spec",
+        "V.C07.member_leave_eq_spec",
+        "V.C07.member_ban_eq_spec",
+        "V.C07.member_knock_eq_spec",
+        "V.C07.third_party_eq_spec",
+        "V.C07.power_levels_eq_spec",
+        "V.C07.redaction_eq_spec",
+        "V.C07.default_eq_spec",
+        "V.C07.different_rooms_refused",
+        "V.C07.no_panic_allowed",
+        "V.C07.spec_delta_documented",
+        "V.C07.witnesses_model_eq_library",
+        "V.C07.repaired_witnesses",
+        "V.C07.version_switches_eq_spec",
+        "V.C07.spec_table_stable",
     ],
     "rule": "random room states (create / power_levels / join_rules / members / third-party invites with real ed25519 signatures, "
             "16 versions) x event under test of every class, plus (gen_authspace.go) the named witnesses of VProps/C07.lean and the "
@@ -21,7 +35,7 @@ CONFIG = {
             "membership x new membership x join rule (7 values incl. absent / unknown) x sender level vs threshold (<,=,>) x target "
             "level vs sender level (<,=,>) x create present x m.federate / domains x authoriser state x power-levels event present, "
             "each rendered to real events (thorough: all ~58k; quick: a seeded 5 % sample); the spec stream is the verdict of the "
-            "transcribed authorisation rules (VModel/AuthRules.lean, departures D1-D15 of DESIGN.md 6.1 on); non-trivial = every "
+            "transcribed authorisation rules (VModel/AuthRules.lean, Departures.library = D1-D17 of DESIGN.md 6.1); non-trivial = every "
             "distinct op (each is one concrete event + auth-event set)",
     "nontrivial": lambda op, impl: True,
     "trusted": COMMON_TRUSTED + [
@@ -34,7 +48,7 @@ CONFIG = {
         "modelled domain (rulesAllow = none outside it): registered room version, room ID accepted by the event constructors, no IPv6 "
         "literal in the user IDs the rules look at, no mxid_mapping.signatures, float levels exactly representable",
         "spec rule 2 (the auth_events list itself), size limits and signatures are outside Allowed's interface (C14, C17, C06)",
-        "theorems are about Departures.asImplemented = D1-D15 + the candidate departures U1-U7; Departures.library (D1-D15 only) is "
-        "proved off the input shapes of touchesUndocumented and refuted on the seven witnesses of undocumented_delta",
+        "D16 / D17 and five differences repaired in /repo (6fda2cc, 17893e1, 81e30aa, ba68227, c0fa8cc) were found while proving C07; "
+        "the former failing inputs are the theorem repaired_witnesses and part of corpus/C07/auth.ops",
     ],
 }
